@@ -220,6 +220,11 @@ class Check:
             self.harness_error("second solver disagrees: %s -- z3 says %s, cvc5 says %s" % (dis["name"], dis["z3"], dis["cvc5"]))
         if Z.BUDGET["skipped"]:
             self.harness_error("wall-clock budget of %d s spent: %d solver queries were not attempted (answered unknown)" % (Z.BUDGET["seconds"], Z.BUDGET["skipped"]))
+        from symnum import executor as _X
+        if _X.GENERIC_CUTS[0]:
+            self.assume("inputs in general position: %d exact equality tests (==, !=, .any(), array_equal) between structurally different symbolic "
+                        "values that the assumptions do not decide were taken as 'not equal' (recorded cuts; equal arguments are covered where a case "
+                        "uses the same symbol for both)" % _X.GENERIC_CUTS[0])
         from symnum import npproxy as _npp
         for which, c in sorted(_npp.CAP_CUTS):
             self.assume("numpy.%s(x, %g) with a symbolic x is taken as x: the claims are restricted to x %s %g (for the Bose argument "
